@@ -468,13 +468,17 @@ PRE_THOROUGH = PRE + [[5], [5, 2]]
 def run_c12(tier, seed, verdict, cov):
     d = fresh_dir('c12-%d' % os.getpid())
     npos = 200 if tier == 'quick' else 1500
+    nwide = 700 if tier == 'quick' else 8000       # further positions searched once (depth 3, empty cache): cheap, wide
     gparts = max(1, min(NCPU - 2, 12))
 
     def gen(i):
-        p = run_harness(['mate-cands', '--seed', seed * 100 + i, '--n', (npos + gparts - 1) // gparts, '--seeds', os.path.join(ROOT, 'seeds')], timeout=6000)
+        p = run_harness(['mate-cands', '--seed', seed * 100 + i, '--n', (npos + nwide + gparts - 1) // gparts, '--seeds', os.path.join(ROOT, 'seeds')], timeout=6000)
         return [l.strip() for l in p.stdout.split('\n') if l.strip()]
     with cf.ThreadPoolExecutor(max_workers=gparts) as ex:
-        fens = sorted(set(sum(ex.map(gen, range(gparts)), [])))
+        allf = sorted(set(sum(ex.map(gen, range(gparts)), [])))
+    random.Random(seed).shuffle(allf)
+    fens = allf[:npos]
+    wide = allf[npos:]
     sparse, corner, perft, bench, mates = positions()
     for f in mates:
         q = f.split()
@@ -491,6 +495,9 @@ def run_c12(tier, seed, verdict, cov):
                 plan += [([5], 3), ([5, 2], 4)]      # on top of a completed depth-5 search (costly: every fifth position)
         for pre, depth in plan:
             cases.append({'id': len(cases), 'fen': f, 'pre': pre, 'depth': depth})
+    for f in wide:
+        cases.append({'id': len(cases), 'fen': f, 'pre': [], 'depth': 3})
+    fens = fens + wide
     parts = max(1, min(NCPU - 2, 12))
     # keep the cases of one position together (facts are computed once per position)
     per = (len(fens) + parts - 1) // parts
